@@ -12,7 +12,7 @@ ENGINE = "E1"
 TECHNIQUE = "bounded exhaustive enumeration of repeated items x bounds x contexts x listings on the real code vs reference matcher, plus times:n vs n-copies differential"
 RULE = ("every item kind (plain mnemonic, mnemonic+operands, $and/$or/$not/$and_any_order groups, nested group) x every "
         "bound (times:n for n in 0..N; {min,max} for 0<=min<=max<=N) in the spelling the grammar admits (inside the body "
-        "for a plain mnemonic, sibling key otherwise) x 4 contexts (alone, after 'ret', before 'ret', between) x EVERY "
+        "for a plain mnemonic, sibling key otherwise) x 7 contexts (alone, after 'ret', before 'ret', between, and three where the neighbour can match the same instruction as the repeated item) x EVERY "
         "listing of length 0..L over a 3-instruction alphabet, so runs of 0..L repetitions all occur; oracle = reference "
         "matcher (verdict, every reported span genuine and record-aligned); differential: times:n and the item written n "
         "times give identical result lists on every listing. Non-trivial = reference finds the rule or its first item "
@@ -69,7 +69,10 @@ def all_bounds(n):
 
 
 def contexts(item):
-    return [("alone", [item]), ("after", ["ret", item]), ("before", [item, "ret"]), ("between", ["ret", item, "ret"])]
+    # 'overlap' contexts: the neighbour can match the very instruction the repeated item matches, so a repetition count
+    # other than the greedy maximum has to be tried (backtracking into the quantifier)
+    return [("alone", [item]), ("after", ["ret", item]), ("before", [item, "ret"]), ("between", ["ret", item, "ret"]),
+            ("overlap_after", [item, "mov"]), ("overlap_before", ["mov", item]), ("overlap_after_push", [item, "push", "ret"])]
 
 
 def all_rules(tier):
